@@ -222,6 +222,9 @@ pub fn patho_input(shape: &str, n: usize) -> Vec<u8> {
     }
 }
 
+/// shapes whose whole input is one (unfinished or huge) token
+pub const SINGLE_TOKEN_SHAPES: &[&str] = &["huge-comment", "huge-attr-value", "many-attributes", "many-duplicate-attributes", "doctype-junk", "huge-text", "huge-nonascii-text"];
+
 pub const SHAPES: &[&str] = &["deep-nesting", "deep-nesting-closed", "huge-text", "huge-nonascii-text", "huge-comment", "huge-attr-value", "many-attributes", "many-duplicate-attributes", "many-siblings", "unclosed-script-lt", "many-stray-end-tags", "stray-end-tags-of-a-closed-name", "reopened-names-deep", "lt-soup", "foreign-deep", "doctype-junk"];
 
 fn thread_cpu() -> f64 {
@@ -544,7 +547,20 @@ impl Prop for C15 {
                 }
                 if strikes >= 3 {
                     let c = Case15::Patho { shape: (*shape).into(), n: base * 8, selectors: selectors.clone(), cuts_every };
-                    if !ctx.violation(Violation { key: format!("super-linear:{shape}"), msg: format!("work grows super-linearly on {shape}: t(8n)/t(n) = {ratios:?} in three consecutive measurements (n = {base})"), case: serde_json::to_value(&c).unwrap() }) {
+                    // bug model of the known finding: ONE huge unfinished token delivered in small writes is re-buffered
+                    // (exact-size reallocation, re-basing of all ranges collected so far) on every write, i.e. O(n^2 / w);
+                    // the very same input in a single write is linear
+                    let mut key = format!("super-linear:{shape}");
+                    if cuts_every > 0 && SINGLE_TOKEN_SHAPES.contains(shape) {
+                        let t1 = run_single_in_child(&Case15::Patho { shape: (*shape).into(), n: base, selectors: selectors.clone(), cuts_every: 0 }, &ctx.flavour);
+                        let t8 = run_single_in_child(&Case15::Patho { shape: (*shape).into(), n: base * 8, selectors: selectors.clone(), cuts_every: 0 }, &ctx.flavour);
+                        if let (Ok(Ok(a)), Ok(Ok(b))) = (t1, t8) {
+                            if b / a.max(1e-4) <= 24.0 {
+                                key = "quadratic-rebuffering-of-unfinished-token".into();
+                            }
+                        }
+                    }
+                    if !ctx.violation(Violation { key, msg: format!("work grows super-linearly on {shape}: t(8n)/t(n) = {ratios:?} in three consecutive measurements (n = {base})"), case: serde_json::to_value(&c).unwrap() }) {
                         return;
                     }
                 } else if strikes > 0 {
